@@ -50,6 +50,14 @@ for m in seeds:
 t.append('')
 t.append('%d seeded changes; %d were caught by the checks as they stood, the others exposed blind spots of the workloads (not of the oracles) and led to the strengthenings named in the table; '
          'after them every seeded change is caught by its property\'s quick check.' % (len(seeds), first))
+rp = os.path.join(ROOT, 'seeded_regress_last.json')
+if os.path.exists(rp):
+    rg = json.load(open(rp))
+    ats = sorted(r['at'] for r in rg['results'])
+    nd = [r['seed'] for r in rg['results'] if r['confirmed'] and r['verdict'] != 'detected']
+    t.append('')
+    t.append('Regression (`python -m vf.tools.seedregress`, %s .. %s): every stored patch applied to a scratch worktree of the repaired tree and the property\'s quick check '
+             'run against it as the checks stand now: %d of %d confirmed seeds detected%s.' % (ats[0][:16], ats[-1][:16], rg['detected'], rg['confirmed'], '' if not nd else '; NOT detected: ' + ', '.join(nd)))
 block('SEEDED', '\n'.join(t))
 import subprocess
 kf = json.load(open(os.path.join(ROOT, 'known_findings.json')))
